@@ -389,6 +389,8 @@ func (ex *Exec) builtin(fr *Frame, instr ssa.CallInstruction, bi *ssa.Builtin, c
 		return st.with("G|closed", ex.vc.def("closed", sto(h, args[0], tTrue))), Term{}, false
 	case "print", "println":
 		return st, Term{}, false
+	case "ssa:deferstack":
+		return st, intLit(0), false
 	case "clear":
 		if _, ok := c.Args[0].Type().Underlying().(*types.Map); ok {
 			keys := map[string]bool{}
